@@ -447,6 +447,10 @@ func (s *c35sim) load(what string, files []*trcSpec, allowFaults bool) {
 			case got[key] == df.t.pldHash:
 				if !before[key] {
 					r.Covered("load/new")
+					if lb, ls, ok := s.modelLatest(df.t.isd); ok && df.t.base < lb && df.t.serial > ls {
+						// a straggler of an abandoned base, numbered higher than anything under the current base
+						r.Probe("abandoned-base-trc-with-higher-serial-stored")
+					}
 					s.modelAdd(df.t)
 				} else {
 					r.Covered("load/already-there")
@@ -552,9 +556,12 @@ func runC35(r *core.Run, faulty bool) {
 		nv := r.Range("world.voters", 2, 3)
 		main := s.buildChain(1, mainBase, t0, nMain, nv, r.Range("world.quorum", 1, nv))
 		var reset, second *chain
-		if r.Choice("world.reset", 3) == 1 {
-			rb := mainBase + nMain + 1 + r.Choice("world.resetbase", 2)
-			reset = s.buildChain(1, rb, t0.Add(time.Duration(nMain+1)*s.step), r.Range("world.resetlen", 0, 2), 2, 1)
+		if r.Choice("world.reset", 2) == 1 {
+			// A trust reset abandons the old chain at some serial; whoever still holds the old (possibly
+			// compromised) voting keys may have continued it beyond that point, so the new base number can be
+			// lower than serial numbers that exist under the old base.
+			rb := mainBase + nMain + 2 - r.Choice("world.resetbase", nMain+2)
+			reset = s.buildChain(1, rb, t0.Add(time.Duration(rb-mainBase)*s.step), r.Range("world.resetlen", 0, 2), 2, 1)
 		}
 		if r.Choice("world.isd2", 3) == 1 {
 			second = s.buildChain(2, 1, t0, r.Range("world.isd2len", 0, 3), 2, 2)
@@ -572,6 +579,11 @@ func runC35(r *core.Run, faulty bool) {
 		}
 		s.load("anchors", anchors, false)
 		s.faultsOn = faulty
+		if k := r.Choice("world.age", nMain+3); k > 0 {
+			// the anchors are old: part of the history is already in the past when the events start
+			time.Sleep(time.Duration(k) * s.step)
+			r.Logf("clock advances %v", time.Duration(k)*s.step)
+		}
 
 		events := r.Range("events", 4, 16)
 		for e := 0; e < events && !r.Failed(); e++ {
@@ -589,7 +601,7 @@ func runC35(r *core.Run, faulty bool) {
 				}
 				r.Logf("restart")
 				s.compare("restart")
-			case 4:
+			case 4, 5:
 				c := s.chains[r.Choice("load.chain", len(s.chains))]
 				a := r.Choice("load.from", len(c.trcs))
 				if r.Choice("load.gap", 3) != 2 {
